@@ -715,7 +715,26 @@ fn to_list(ctx: &Context, top: &Number, list: &[&str]) -> Result<Vec<NumberParts
                 value,
                 unit: Number::one_unit(BaseUnit::new(name)).unit,
             };
-            let pretty = raw_number.to_parts(ctx);
+            // `to_parts` may pick an SI prefix and glue it onto whatever the
+            // list called the unit. When that happens to spell another unit
+            // (`2 s -> ms;us` gives 2 `kiloms`, which reads as kilometers),
+            // show the part without a prefix.
+            let prefixed = raw_number.prettify(ctx);
+            let misread = match (prefixed.unit.as_single(), ctx.lookup(name)) {
+                (Some((shown, 1)), Some(own)) if &*shown.id != *name => ctx
+                    .lookup(&shown.id)
+                    .map(|other| {
+                        other.unit != own.unit
+                            || &prefixed.value * &other.value != &raw_number.value * &own.value
+                    })
+                    .unwrap_or(false),
+                _ => false,
+            };
+            let pretty = if misread {
+                raw_number.to_parts_simple()
+            } else {
+                raw_number.to_parts(ctx)
+            };
             let unit: String = pretty
                 .unit
                 .or(pretty.dimensions)
